@@ -170,7 +170,7 @@ class Gen:
             n = r.choice([1, 2, 3, 4, 5, 8])
             if self.big_arrays and r.random() < 0.2:
                 n = r.choice([32, 33, 40, 64])      # serde / bytemuck stop at 32 elements: the derive lists must not depend on it
-            elif self.huge_arrays and r.random() < 0.15:
+            elif self.huge_arrays and base.kind in ("scalar", "vec", "mat") and r.random() < 0.15:
                 n = r.choice([752, 1000, 4096, 65536, 62600])      # sizes / offsets of five and more digits
             return Ty("array", elem=base, n=n)
         return self.leaf()
